@@ -96,6 +96,11 @@ mut("c09-remove-children-in-place-alias", "C09", NODE,
     "        del self._children[1:]\n\n    def remove_namespace",
     "remove_children keeps the first child")
 
+mut("c09-replace-moves-to-end", "C09", NODE,
+    "        self._children[self._children.index(old_child)] = new_child\n",
+    "        self._children.remove(old_child)\n        self._children.append(new_child)\n",
+    "replace_child puts the new child at the end instead of the old child's position")
+
 # ------------------------------------------------------------------ C13
 mut("c13-remove-in-place", "C13", NODE,
     """        if prefix in self.nsmap:
@@ -389,6 +394,12 @@ mut("c06-serialiser-dedups-nsmap", "C06", MIO,
     "    j[node.name].append({\"nsmap\": node.nsmap})\n",
     "    j[node.name].append({\"nsmap\": node.nsmap if node.parent is None or node.nsmap != node.parent.nsmap else {}})\n",
     "serialiser omits a namespace map equal to the parent's; the loader's attach restores it -- except the order and after detach")
+
+
+mut("c06-loader-attaches-through-child-list", "C06", MIO,
+    "        child_node = _from_dict(child, node)\n        node.add_child(child_node)\n",
+    "        child_node = _from_dict(child, None)\n        node.children.append(child_node)\n",
+    "the loader appends to the child list directly: loaded children have no parent link")
 
 
 def main():
